@@ -1,4 +1,5 @@
 import GlyModel.Smiles.Sem
+import GlyModel.Smiles.Tree
 namespace Gly.Smi
 
 /-- Two tokens have the same shape: equal, or both atoms (whatever their texts – element, stereo mark, H count). -/
@@ -65,11 +66,6 @@ theorem run_shape (ts ts' : List Tok) (hf : ShapeList ts ts') (s s' x : St) (hs 
 end Gly.Smi
 
 namespace Gly.Smi
-
-def atomsOf : List Tok → List Atom
-  | [] => []
-  | .atom a :: ts => a :: atomsOf ts
-  | _ :: ts => atomsOf ts
 
 /-- The atom list of the denoted molecule is the list of atom tokens, in writing order. -/
 theorem run_atoms (ts : List Tok) (s x : St) (h : run s ts = some x) : x.atoms = s.atoms ++ atomsOf ts := by
